@@ -437,18 +437,21 @@ def run_check(prop, *, module, driver_targets, correspondence, translate=True, l
             ok_drv, log_drv, _ = lake_build(driver_targets, locked=True)
             if not ok_drv:
                 raise Infra("model/driver build failed:\n" + log_drv[-4000:])
-            ok_prop, log_prop, build_s = lake_build([module], locked=True)
+            modules = [module] if isinstance(module, str) else list(module)
+            module = modules[0]
+            ok_prop, log_prop, build_s = lake_build(modules, locked=True)
             theorems, bad_axioms, forbidden = [], [], []
             if ok_prop:
-                theorems = audit(module)
+                for m_ in modules:
+                    theorems += audit(m_)
+                    forbidden += grep_forbidden(m_)
                 bad_axioms = [(t, [a for a in axs if a not in ALLOWED_AXIOMS]) for t, axs in theorems]
                 bad_axioms = [(t, a) for t, a in bad_axioms if a]
-                forbidden = grep_forbidden(module)
-            opens = open_statements(module)
+            opens = [o for m_ in modules for o in open_statements(m_)]
             if ctx.thorough and ok_prop:
-                p = subprocess.run(["lake", "env", "leanchecker", module], cwd=LEAN, capture_output=True,
+                p = subprocess.run(["lake", "env", "leanchecker", *modules], cwd=LEAN, capture_output=True,
                                    text=True, timeout=3000)
-                ctx.notes.append(f"leanchecker {module}: exit {p.returncode}")
+                ctx.notes.append(f"leanchecker {' '.join(modules)}: exit {p.returncode}")
                 if p.returncode != 0:
                     ok_prop = False
                     log_prop += "\nleanchecker:\n" + p.stdout[-2000:] + p.stderr[-2000:]
@@ -509,8 +512,8 @@ def run_check(prop, *, module, driver_targets, correspondence, translate=True, l
             "open_statements": opens,
             "theorems": [t for t, _ in theorems],
             "axioms_used": sorted({a for _, axs in theorems for a in axs}),
-            "checker_cmd": f"cd lean && lake build {module} && lake env lean <audit: #print axioms on every theorem of {module}>"
-                           + (f" && lake env leanchecker {module}" if ctx.thorough else ""),
+            "checker_cmd": f"cd lean && lake build {' '.join(modules)} && lake env lean <audit: #print axioms on every theorem of {' '.join(modules)}>"
+                           + (f" && lake env leanchecker {' '.join(modules)}" if ctx.thorough else ""),
             "trusted_base": (trusted or []) + [
                 "Lean 4.33 kernel", "axioms: propext, Classical.choice, Quot.sound only (audited each run)",
                 "harness/translate.py (tables regenerated from /repo each run)",
